@@ -68,8 +68,13 @@ class Deep:
 
         self.config.resource = default_resource
         self.trigger_handler.start()
-        self.grpc.start()
-        self.poll.start()
+        try:
+            self.grpc.start()
+            self.poll.start()
+        except BaseException:
+            # do not leave our trace hooks installed if we failed to start (shutdown is a no-op unless started)
+            self.trigger_handler.shutdown()
+            raise
         self.started = True
 
     def shutdown(self):
